@@ -260,6 +260,44 @@ func c13Payload(c *ctx, sc schemaSpec, payload string, how string, prop string) 
 			key, detail = c06Remarshal(tree, eff, remarshal, ft)
 		}
 	}
+	// the same through the partial route: every field of the partial resource holds the payload's value
+	if prop == "C06" && partOK && key == "" {
+		for k, a := range part.Attrs() {
+			raw, present := eff.attrs[k]
+			if !present {
+				continue // which fields are present is C13's
+			}
+			v := part.Get(k)
+			if v == nil && a.Nullable {
+				v = jsonapi.GetZeroValue(a.Type, a.Nullable)
+			}
+			if k2, d2 := c06Oracle(a, raw.text(), raw, v, nil); k2 != "" {
+				key, detail = k2, "partial resource, attribute "+k+": "+d2
+			}
+		}
+		for k, r := range part.Rels() {
+			d := relDataMember(eff.rels[k])
+			if d == nil {
+				continue
+			}
+			if r.ToOne {
+				if part.Get(k) != identifierID(d) {
+					key, detail = "relationship-id-differs", fmt.Sprintf("partial resource, %s: %q, payload lists %q", k, part.Get(k), identifierID(d))
+				}
+			} else {
+				var want []string
+				if d.kind == "arr" {
+					for _, x := range d.arr {
+						want = append(want, identifierID(x))
+					}
+				}
+				got, _ := part.Get(k).([]string)
+				if len(want) != len(got) || (len(want) > 0 && !reflect.DeepEqual(want, got)) {
+					key, detail = "relationship-ids-differ", fmt.Sprintf("partial resource, %s: %q, payload lists %q", k, got, want)
+				}
+			}
+		}
+	}
 	outcome := fmt.Sprintf("full=%v partial=%v", fullOK, partOK)
 	c.count("outcome:" + outcome)
 	c.count("how:" + how)
